@@ -37,7 +37,7 @@ def read_h(tag, inst, longest, tier="both", timeout=600, real_outbyte=False):
               % (tag, longest, " with the real output_byte (ring writes)" if real_outbyte else ""),
               [S_WALK, S_BLOCK] + ([] if real_outbyte else [S_OUTB]),
               "lha_lh_new_read,read_code,read_offset_code,copy_from_history" + (",output_byte" if real_outbyte else "") + (",lhark_decode_copy_count,lhark_read_offset_code" if "LK" in inst or "REAL_LK7" in inst else ""),
-              tier=tier, timeout=timeout, flags=["--arrays-uf-always"], mem_gb=6)
+              tier=tier, timeout=timeout, flags=[] if real_outbyte else ["--arrays-uf-always"], mem_gb=6)
 
 
 HARNESSES_LHNEW = [
@@ -77,7 +77,7 @@ HARNESSES_LHNEW = [
     read_h("lk7", ["REAL_LK7"], 514, tier="thorough", timeout=1800),
     read_h("lh6", ["REAL_LH6"], 258, tier="thorough", timeout=1800),
     read_h("lh7", ["REAL_LH7"], 258, tier="thorough", timeout=1800),
-    read_h("lhx", ["REAL_LHX"], 258, tier="thorough", timeout=1800),
+    read_h("lhx", ["REAL_LHX"], 258),
     read_h("hb9", ["HB=9", "OB=4"], 258, real_outbyte=True, tier="thorough", timeout=1800),
     read_h("lk.hb10", ["HB=10", "OB=6", "LK"], 514, real_outbyte=True, tier="thorough", timeout=1800),
 ]
